@@ -286,6 +286,9 @@ JudgePosWithdraw(s, h, e, p) ==
                                                       \E a \in A \ {fc} : BSub(p.bal[a][pp.lp], s.bal[a][pp.lp]) # Z),
        C09_accounted           |-> G(good /\ emerg, BLe(out, pp.amt) /\ BLe(pp.amt, BAdd(out, BNat(Cardinality(A))))),
        M_penalty_split_exact   |-> G(good /\ emerg, p.bal = ApplyT(s.bal, T)),
+       \* an open position taken out by an emergency exit stops weighing (and earning) whether or not a farm exists at that moment
+       C06_withdrawn_position_stops_earning |-> G(good /\ emerg /\ pp.open /\ pp.lp \in OpenLps(p, pp.owner),
+                                                  F!LatestValue(Hist(p, pp.owner, pp.lp)) = BSub(F!LatestValue(Hist(s, pp.owner, pp.lp)), CV!CurveWeight(pp.amt, pp.dur))),
        C10_effect_next_epoch   |-> G(good /\ pp.open, NextEpochEffect(s, p, pp.owner, pp.lp) /\ HistOthersUnchanged(s, p, pp.owner, pp.lp, h)),
        C10_closed_withdraw_keeps_weights |-> G(good /\ ~pp.open, p.fm.hist = s.fm.hist),
        C20_farm_rejected_noop  |-> G(~e.ok, Unchanged(s, p)) ]
